@@ -220,6 +220,9 @@ def obligations(tier):
     for kind, ffs in c02.NA_FFS.items():
         for ff in ffs:
             obs.append(Obligation(f"success-{kind}-{ff}", c02.table_strands, dict(ff=ff, kind=kind, lengths=[2, 3] if tier == "quick" else [2, 3, 4]), kind="table", group="success"))
+    # success side, chain bookkeeping: several peptides under one (or a blank) chain id, each ending in OXT, must be processed
+    for layout in ("hidden-ends", "blank-two-chains", "blank-chain") if tier == "thorough" else ("hidden-ends",):
+        obs.append(Obligation(f"success-termini-{layout}", c02.h_termini, dict(layout=layout, strict=True), group="success-termini", time_cap=3000, max_paths=100000))
     obs.append(Obligation("success-amino-parse-neutral-termini", table_success, dict(ff="parse", residues=AMINO if tier == "thorough" else AMINO[::3] + ["GLY", "PRO", "HIS"], kind="amino", neutral=True), kind="table", group="success"))
     return obs
 
